@@ -1,10 +1,201 @@
 /- driver ops for property C20 (model side of the correspondence) -/
 import Rsa.Core.Wire
+import Rsa.Core.Importers
 
-open Lean Rsa.Wire
+open Lean Rsa.Wire Rsa.Importers
 
 namespace Rsa.Drv.C20
 
-def handle : Handler := fun _op _j => none
+def asS (j : Json) : R Str := do pure (← asStr j).toList
+def ofS (s : Str) : Json := Json.str (String.ofList s)
+def ofOS : Option Str → Json := ofOpt ofS
+def exc (e : String) : Json := obj [("exc", Json.str e)]
+
+def ofEnt (e : BidsEnt) : Json :=
+  obj [("derivative", ofOS e.derivative), ("sub", ofOS e.sub), ("ses", ofOS e.ses),
+       ("task", ofOS e.task), ("run", ofOS e.run), ("space", ofOS e.space),
+       ("desc", ofOS e.desc), ("modality", ofOS e.modality),
+       ("suffix", ofS e.suffix), ("ext", ofS e.ext)]
+
+/-- a path and its own deconstruction (what a `BidsFile(path)` would hold) -/
+def pathAndEnt (modSet : Bool) (p : Str) : Json :=
+  if !modSet then exc "AttributeError"
+  else match bidsParse p with
+    | .ok e => obj [("path", ofS p), ("ent", ofEnt e), ("modality_set", Json.bool (modalitySet p))]
+    | .error err => obj [("path", ofS p), ("exc", Json.str err)]
+
+/-- parse a relative path, rebuild it, run the look-ups -/
+def bids (j : Json) : R Json := do
+  let p ← fld j "path" >>= asS
+  let desc ← fld j "desc" >>= asS
+  let suffix ← fld j "suffix" >>= asS
+  match bidsParse p with
+  | .error e => pure (exc e)
+  | .ok b =>
+    let ms := modalitySet p
+    pure (obj [
+      ("ent", ofEnt b), ("modality_set", Json.bool ms),
+      ("rebuilt", pathAndEnt ms (bidsReplace b {})),
+      ("meta", pathAndEnt ms (findMetaFor b)),
+      ("events", pathAndEnt ms (findEventsFor b)),
+      ("table", pathAndEnt ms (findTableSiblingOf b desc suffix)),
+      ("mri", pathAndEnt ms (findMriSiblingOf b desc suffix)),
+      ("key", ofS (findTableKeyFor b))])
+
+def ofInfo (i : MInfo) : Json :=
+  obj [("version", ofS i.version), ("experiment_name", ofS i.experiment),
+       ("structure", ofS i.structure_), ("filetype", ofS i.filetype),
+       ("task_scope", Json.str (if i.taskScopeSingle then "single" else "multiple")),
+       ("participant_scope", Json.str (if i.participantScopeSingle then "single" else "multiple")),
+       ("participant", ofOS i.participant), ("task_index", ofOpt ofNat i.taskIndex),
+       ("task_name", ofOS i.taskName)]
+
+def meadowsName (j : Json) : R Json := do
+  let p ← fld j "fpath" >>= asS
+  let pets ← fld j "petnames" >>= asList asS
+  match meadowsSegments pets p with
+  | .ok i => pure (ofInfo i)
+  | .error e => pure (exc e)
+
+def asMatVal (j : Json) : R (MatVal Rat) := do
+  match j.getObjVal? "strs" with
+  | .ok v => pure (.strs (← asList asS v))
+  | .error _ => pure (.nums (← fld j "nums" >>= asList (asList asRat)))
+
+def asVar (j : Json) : R (Str × MatVal Rat) := do
+  match ← asArr j with
+  | [k, v] => pure (← asS k, ← asMatVal v)
+  | _ => throw "variable must be [name, value]"
+
+def asTask (j : Json) : R (JTask Rat) := do
+  pure { taskType := ← asOpt asS (fldD j "task_type" Json.null)
+         name := ← fld j "name" >>= asS
+         stimuli := ← fld j "stimuli" >>= asList asS
+         rdm := ← fld j "rdm" >>= asList asRat }
+
+def ofRdms (r : MeadowsRdms Rat) : Json :=
+  obj [("experiment_name", ofS r.experiment), ("dissim", ofList (ofList ofRat) r.dissim),
+       ("conds", ofList ofS r.conds), ("participant", ofList ofS r.participant),
+       ("task", ofOpt (ofList ofS) r.task), ("task_index", ofOpt (ofList ofNat) r.taskIndex)]
+
+def sJsonExt : Str := ['j', 's', 'o', 'n']
+
+/-- `load_rdms` on a file given by name and content -/
+def meadowsLoad (j : Json) : R Json := do
+  let p ← fld j "fpath" >>= asS
+  let pets ← fld j "petnames" >>= asList asS
+  let sort ← fld j "sort" >>= asBool
+  match meadowsSegments pets p with
+  | .error e => pure (exc e)
+  | .ok info =>
+    let comps : Except String (Comps Rat) ←
+      if info.filetype == sMat then do
+        let vars ← fld j "vars" >>= asList asVar
+        pure (compsMat info vars)
+      else if info.filetype == sJsonExt then do
+        let tasks ← asOpt (asList asTask) (fldD j "tasks" Json.null)
+        pure (compsJson info tasks)
+      else pure (.error "ValueError")
+    match comps with
+    | .error e => pure (exc e)
+    | .ok c => pure (ofRdms (assemble info c sort))
+
+def asTriple (j : Json) : R (Int × Int × Int) := do
+  match ← asList asInt j with
+  | [a, b, c] => pure (a, b, c)
+  | _ => throw "event row must have three entries"
+
+def mne (j : Json) : R Json := do
+  let data ← fld j "data" >>= asList (asList (asList asRat))
+  let ev ← fld j "events" >>= asList asTriple
+  let ch ← fld j "ch" >>= asList asS
+  let times ← fld j "times" >>= asList asRat
+  let d := fromEpochs data ev ch times
+  pure (obj [("measurements", ofList (ofList (ofList ofRat)) d.measurements),
+             ("event", ofList ofInt d.event), ("channel", ofList ofS d.channel),
+             ("time", ofList ofRat d.time)])
+
+def mneName (j : Json) : R Json := do
+  let f ← fld j "fname" >>= asS
+  let (s, r, t) := mneDescriptors f
+  pure (obj [("sub", ofOS s), ("run", ofOS r), ("task", ofOS t)])
+
+def asEvent (j : Json) : R (Str × Rat) := do
+  match ← asArr j with
+  | [t, o] => pure (← asS t, ← asRat o)
+  | _ => throw "event must be [trial_type, onset]"
+
+def asTableRow (j : Json) : R (List Rat × List Rat) := do
+  match ← asArr j with
+  | [o, c] => pure (← asList asRat o, ← asList asRat c)
+  | _ => throw "table row must be [onsets, column]"
+
+/-- `make_design_matrix` after the convolution; `table` maps the onsets of a condition to
+    its convolved column (the scipy contract) -/
+def dm (j : Json) : R Json := do
+  let events ← fld j "events" >>= asList asEvent
+  let table ← fld j "table" >>= asList asTableRow
+  let cf ← asOpt (asList (asList (asOpt asRat))) (fldD j "confounds" Json.null)
+  let nVols ← fld j "n_vols" >>= asNat
+  let hrfCol : List Rat → List Rat := fun ons =>
+    match table.find? (fun r => r.1 == ons) with
+    | some r => r.2
+    | none => []
+  match designFromEvents events hrfCol cf nVols with
+  | .error e => pure (exc e)
+  | .ok d => pure (obj [("cols", ofList (ofList ofRat) d.cols),
+                        ("mask", ofList Json.bool d.mask), ("dof", ofInt d.dof)])
+
+def matFn (m : List (List Rat)) : Nat → Nat → Rat :=
+  let a := (m.map List.toArray).toArray
+  fun i j => match a[i]? with
+    | some r => (match r[j]? with | some v => v | none => 0)
+    | none => 0
+
+def fnMat (r c : Nat) (f : Nat → Nat → Rat) : List (List Rat) :=
+  (List.range r).map (fun i => (List.range c).map (fun j => f i j))
+
+def ncols (m : List (List Rat)) : Nat := match m with | [] => 0 | r :: _ => r.length
+
+def asRuns (j : Json) : R (List (Run Rat)) := do
+  let ns ← fld j "nscans" >>= asList asNat
+  let fs ← fld j "filters" >>= asList (asList (asList asRat))
+  if ns.length != fs.length then throw "nscans and filters differ in length"
+  pure ((ns.zip fs).map (fun nf => { t := nf.1, k := ncols nf.2, X := matFn nf.2 }))
+
+def spm (j : Json) : R Json := do
+  let runs ← asRuns j
+  let data ← fld j "data" >>= asList (asList asRat)
+  pure (ofList (ofList ofRat) (fnMat data.length (ncols data) (spmFilter runs (matFn data))))
+
+def spmResid (j : Json) : R Json := do
+  let runs ← asRuns j
+  let data ← fld j "data" >>= asList (asList asRat)
+  let w ← fld j "W" >>= asList (asList asRat)
+  let pinv ← fld j "pinvX" >>= asList (asList asRat)
+  let x ← fld j "X" >>= asList (asList asRat)
+  let n := data.length
+  let q := ncols x
+  let (res, beta) := spmResiduals n q runs (matFn w) (matFn pinv) (matFn x) (matFn data)
+  pure (obj [("residuals", ofList (ofList ofRat) (fnMat n (ncols data) res)),
+             ("beta", ofList (ofList ofRat) (fnMat q (ncols data) beta))])
+
+def relocateOp (j : Json) : R Json := do
+  let base ← fld j "base" >>= asS
+  let f ← fld j "fpath" >>= asS
+  pure (ofS (relocate base f))
+
+def handle : Handler := fun op j =>
+  match op with
+  | "c20.bids" => some (bids j)
+  | "c20.meadows_name" => some (meadowsName j)
+  | "c20.meadows_load" => some (meadowsLoad j)
+  | "c20.mne" => some (mne j)
+  | "c20.mne_name" => some (mneName j)
+  | "c20.dm" => some (dm j)
+  | "c20.spm" => some (spm j)
+  | "c20.spm_resid" => some (spmResid j)
+  | "c20.relocate" => some (relocateOp j)
+  | _ => none
 
 end Rsa.Drv.C20
